@@ -124,9 +124,9 @@ CLAIMS = [
     Claim("c06_io_surfaces_scanners", "C06", "quick", claim_io_scanners,
           "in parse_whitespace, the number scanner, end_seq / expect_end and the 11 reader kernels, a read that fails ends "
           "the function with that I/O error on every path: never a value, never end-of-input, never a syntax error",
-          "23 functions, loops cut; reader failing at an arbitrary position", configs=("fast",)),
+          "23 functions, loops cut; reader failing at an arbitrary position", configs=("fast",), also=("C19",)),
     Claim("c06_callee_errors", "C06", "quick", claim_callee_errors,
           "the list / vector builders return every error of trivia skipping, lookahead, the nested parser and the symbol "
           "scanner unchanged",
-          "4 builders, one arbitrary loop step", configs=("fast",)),
+          "4 builders, one arbitrary loop step", configs=("fast",), also=("C19",)),
 ]
